@@ -269,7 +269,7 @@ def run(rng, tier, res=None, want=("arcs", "pdf", "cluster")):
                     o.propagate_labels()
                     prop = [nd[i].predicted_label for i in range(n)]
                 else:
-                    prop = [lab[roots[i]] for i in range(n)]
+                    prop = [lab[roots[i]] if 0 <= roots[i] < n else -99 for i in range(n)]   # out-of-range roots must surface as a disagreement
                 line = (f"cluster {1 if unsup else 0} {1 if force else 0} {TOP} {NEGTOP} {k} {n} {lists_tok(inp_adj)} "
                         f"{ints(inp_np)} {ints(enc(d) for d in dens0)} {ints(enc(c) for c in cost0)} {ints(lab)} "
                         f"{len(prior_order)} {ints(prior_order)}")
@@ -328,7 +328,9 @@ def run(rng, tier, res=None, want=("arcs", "pdf", "cluster")):
                             msgs.append(f"forced-prototype clustering linked {p}->{i} across classes")
                     if all(abs(cost0[t] - (dens0[t] - 1)) < 1e-9 for t in range(n)) and not dens0[i] < dens0[x] + 1:
                         msgs.append(f"density[{i}]={dens0[i]} exceeds its root's {dens0[x]} by 1 or more")
-                    if prop[i] != lab[roots[i]]:
+                    if not (0 <= roots[i] < n):
+                        msgs.append(f"root[{i}]={roots[i]} is not a sample position")
+                    elif prop[i] != lab[roots[i]]:
                         msgs.append(f"propagated label of {i} is {prop[i]}, root's true label is {lab[roots[i]]}")
                 rts = [i for i in range(n) if preds[i] == -1]
                 if unsup:
